@@ -393,7 +393,17 @@ func (cfg *Config) replaceElems(repl *syntax.Replace, elems []string) ([]string,
 	if err != nil {
 		return nil, err
 	}
-	if orig == "" {
+	// ${var/#pattern/repl} and ${var/%pattern/repl} only replace a match at
+	// the start or at the end of each element, respectively.
+	// The anchor must be unquoted, and does not apply to ${var//pattern/repl}.
+	anchor := byte(0)
+	if !repl.All && len(repl.Orig.Parts) > 0 && orig != "" && (orig[0] == '#' || orig[0] == '%') {
+		switch repl.Orig.Parts[0].(type) {
+		case *syntax.Lit, *syntax.ParamExp:
+			anchor, orig = orig[0], orig[1:]
+		}
+	}
+	if orig == "" && anchor == 0 {
 		return elems, nil // nothing to replace
 	}
 	with, err := Literal(cfg, repl.With)
@@ -406,7 +416,12 @@ func (cfg *Config) replaceElems(repl *syntax.Replace, elems []string) ([]string,
 	}
 	out := make([]string, len(elems))
 	for i, elem := range elems {
-		locs := findAllIndex(orig, elem, n)
+		var locs [][]int
+		if anchor != 0 {
+			locs = findAnchoredIndex(orig, elem, anchor == '%')
+		} else {
+			locs = findAllIndex(orig, elem, n)
+		}
 		sb := cfg.strBuilder()
 		last := 0
 		for _, loc := range locs {
